@@ -65,6 +65,24 @@ pub fn run_conv(out: &mut Out, seed: u64, random: u64) {
     }
     for n in [0i64, 1, -1, i64::MAX, i64::MIN, i64::MAX - 1, i64::MIN + 1, 1 << 53, (1 << 53) + 1, -(1 << 53) - 1, 1 << 62] { check_from_i(out, n); }
     for _ in 0..(random / 8) { let n = rng.next() as i64 >> (rng.next() % 64); check_from_i(out, n); }
+    // "no conversion changes a numeric value" inside the evaluator too: expressions that are the identity on an Integer, on Integer
+    // placeholders that are not doubles (above 2^53) and at the ends of the range - the result must be that very Integer
+    let ints: Vec<i64> = vec![(1 << 53) + 1, -(1 << 53) - 1, i64::MAX, i64::MIN + 1, i64::MAX - 1, (1 << 62) + 1, 9007199254740993, 3, -7, 0,
+                              4611686018427387905, -4611686018427387905, 1234567890123456789, i64::MIN];
+    let idents = ["@", "floor(@)", "ceil(@)", "round(@)", "trunc(@)", "truncate(@)", "⌊@⌋", "⌈@⌉", "(@)", "+@", "@+0", "@-0", "@*1", "@/1", "@^1", "@¹", "max(@)", "min(@)", "max(@,@)", "min(@,@)",
+                  "avg(@)", "med(@)", "median(@,@,@)", "mod(@,9223372036854775807)+0*@", "abs(@)*sgn(@)", "-(-@)", "0+@", "1*@", "max(@,-9223372036854775807-1)", "min(@,9223372036854775807)"];
+    for n in &ints {
+        for x in idents.iter() {
+            if *n == i64::MIN && (x.contains("abs") || x.contains("-(-") || x.contains("mod(")) { continue; }      // |MIN| is not an i64: Float by C09
+            if x.contains("mod(") && (*n == i64::MAX || *n < 0) { continue; }
+            let ph = Val::N(Number::Integer(*n));
+            let (o, _) = crate::call::call("num", x, &ph);
+            out.stats.calls += 1;
+            let key = h64(&("ident", x, *n)); out.stats.distinct.insert(key); out.stats.nontrivial.insert(key);
+            let ok = matches!(&o, crate::val::Outcome::Ok(Val::N(Number::Integer(m))) if m == n);
+            if !ok { out.finding("conversion", "num", x, &ph, &format!("Integer({}) (the expression is the identity on Integers)", n), &o.show(), json!({})); }
+        }
+    }
     out.stats.samples.push(json!({"structured_values": vals.len(), "random_bit_patterns": random, "example": format!("{:?} -> {:?}", 9223372036854775808.0f64, Number::from(9223372036854775808.0))}));
 }
 
